@@ -19,7 +19,13 @@ import (
 	"golang.org/x/tools/go/ssa/ssautil"
 )
 
-const repoDir = "/repo"
+// repoDir: the tree under check (VERIF_REPO overrides it, e.g. a scratch worktree carrying a seeded change)
+var repoDir = func() string {
+	if v := os.Getenv("VERIF_REPO"); v != "" {
+		return v
+	}
+	return "/repo"
+}()
 
 var verifDir = "/verif"
 
